@@ -199,9 +199,17 @@ func cmdCheck(args []string) int {
 	if v := os.Getenv("GOCV_OUT"); v != "" {
 		outBase = v // scratch runs (seeded changes, self-tests) must not overwrite the real evidence
 	}
-	outDir := filepath.Join(outBase, "out", *prop)
-	os.RemoveAll(outDir)
-	os.MkdirAll(outDir, 0o755)
+	// scratch directory of this run (unique: two checks of one property may run at the same time); the queries of
+	// failing obligations are copied to replay_out, the rest is removed at the end
+	os.MkdirAll(filepath.Join(outBase, "out"), 0o755)
+	outDir, derr := os.MkdirTemp(filepath.Join(outBase, "out"), *prop+"-")
+	if derr != nil {
+		outDir = filepath.Join(outBase, "out", fmt.Sprintf("%s-%d", *prop, os.Getpid()))
+		os.MkdirAll(outDir, 0o755)
+	}
+	if os.Getenv("GOCV_KEEP") == "" {
+		defer os.RemoveAll(outDir)
+	}
 	solveAll(obls, outDir, tmo, mode)
 
 	replayDir := filepath.Join(outBase, "replay_out", *prop)
